@@ -1,5 +1,9 @@
 import Pyunicorn.Lemmas.Nsi
 import Pyunicorn.Model.Equivariance
+import Pyunicorn.Lemmas.RelabelNet
+import Pyunicorn.Lemmas.RelabelCross
+import Pyunicorn.Lemmas.RelabelCircuit
+import Pyunicorn.Lemmas.RelabelGeoRec
 import Mathlib.Algebra.BigOperators.Group.List.Basic
 import Mathlib.Data.List.Nodup
 /-!
@@ -10,6 +14,17 @@ node weights, pairwise matrices carried with the nodes (link attributes, grid di
 similarities, resistances), node groups and shortest-path lengths by arithmetic, sums over all
 nodes (plain and node-weighted) and maxima — evaluates on `permuted_copy(idx)` at a node tuple
 to what it evaluates to on the original network at the renamed tuple, for *every* permutation.
+
+Round 3 (second half of this file, namespace `Pyunicorn.Relabel`): the *models of the other
+properties* — the code-level models that C03 / C11 / C18 / C12 / C07 tie to the source by their own
+correspondences — commute with renumbering: `net_*` (degrees, motif clustering, matching index,
+Laplacian, n.s.i. degree / clustering, the BFS distances, path measures, diameter, coreness by
+peeling), `cross_*` (every cross / internal measure with renumbered node-list arguments, the
+compiled kernels' loops included), `res_*` (admittance, Laplacian, effective resistance for
+whatever generalised inverses are stored, closeness, average, admittive degree / clustering),
+`geo_*` (Euclidean / angular grid distances from renumbered coordinates, area-weighted
+connectivity, link-distance measures) and `rec_*` (recurrence matrix and recurrence-network
+adjacency of reordered state vectors).
 -/
 namespace Pyunicorn.Equiv
 open Pyunicorn.Nsi
@@ -246,3 +261,351 @@ example : eval exG [1] (M.outdeg 0) = 2 ∧ eval (relabel exG exIdx) [2] (M.outd
     eval (relabel exG exIdx) [1] (M.outdeg 0) = 1 := by decide +kernel
 
 end Pyunicorn.Equiv
+
+/-! # Round 3: the code-level models of C03 / C11 / C18 / C12 / C07 commute with renumbering
+
+`IsPerm n idx` is what `permuted_copy` checks (`sorted(idx) == arange(N)`); `mat M idx` is
+`M[idx][:, idx]`, `vec w idx` is `w[idx]`, `nodeList n idx d v` is the per-node array `v[idx]`. -/
+namespace Pyunicorn.Relabel
+open Pyunicorn.Net
+
+variable {n : Nat} {idx : Nat → Nat}
+
+/-- **C03 model, per-node measures**: degrees, bilateral degree, the four motif clustering
+coefficients (matrix products `(A·A·A)_ii` … over degrees), Watts–Strogatz clustering, and the
+matching index (per pair), evaluated on `permuted_copy(idx)` at node `i`, are the old values at
+node `idx i` — for every adjacency matrix (directed or not) and every permutation. -/
+theorem net_local_relabel (h : IsPerm n idx) (a : Adj) (directed : Bool) (i : Nat) :
+    outdeg n (mat a idx) i = outdeg n a (idx i) ∧ indeg n (mat a idx) i = indeg n a (idx i) ∧
+    degree directed n (mat a idx) i = degree directed n a (idx i) ∧
+    bildeg n (mat a idx) i = bildeg n a (idx i) ∧
+    cycleC n (mat a idx) i = cycleC n a (idx i) ∧ midC n (mat a idx) i = midC n a (idx i) ∧
+    inC n (mat a idx) i = inC n a (idx i) ∧ outC n (mat a idx) i = outC n a (idx i) ∧
+    Net.localClustering n (mat a idx) i = Net.localClustering n a (idx i) ∧
+    ∀ j, matching n (mat a idx) i j = matching n a (idx i) (idx j) := by
+  refine ⟨outdeg_relabel h a i, indeg_relabel h a i, degree_relabel h directed a i,
+    bildeg_relabel h a i, ?_, ?_, ?_, ?_, ?_, fun j => matching_relabel h a i j⟩ <;>
+  simp only [cycleC, midC, inC, outC, Net.localClustering, tCycle_relabel h, tMid_relabel h,
+    tIn_relabel h, tOut_relabel h, TCycle_relabel h, TIn_relabel h, TOut_relabel h]
+
+/-- **strengths** with a link attribute renumbered with the nodes -/
+theorem net_strength_relabel (h : IsPerm n idx) (w : Nat → Nat → Rat) (i : Nat) :
+    outstrength n (mat w idx) i = outstrength n w (idx i) ∧
+    instrength n (mat w idx) i = instrength n w (idx i) ∧
+    bilstrength n (mat w idx) i = bilstrength n w (idx i) := strength_relabel h w i
+
+/-- **transitivity** (a global measure) is unchanged -/
+theorem net_transitivity_relabel (h : IsPerm n idx) (a : Adj) :
+    Net.transitivity n (mat a idx) = Net.transitivity n a := by
+  unfold Net.transitivity
+  have e1 : (sumToI n fun i => TOut n (mat a idx) i) = sumToI n fun i => TOut n a i :=
+    sumToI_relabel h _ _ fun i _ => TOut_relabel h a i
+  have e2 : (sumTo n fun i => tCycle n (mat a idx) i) = sumTo n fun i => tCycle n a i :=
+    sumTo_relabel h _ _ fun i _ => tCycle_relabel h a i
+  simp only [e1, e2]
+
+/-- **Laplacian** with the (renumbered) degree vector on the diagonal -/
+theorem net_laplacian_relabel (h : IsPerm n idx) (a : Adj) (diag : Nat → Nat) (i j : Nat)
+    (hi : i < n) (hj : j < n) :
+    Net.laplacian (mat a idx) (vec diag idx) i j = Net.laplacian a diag (idx i) (idx j) :=
+  laplacian_relabel h a diag i j hi hj
+
+/-- **n.s.i. degree family and n.s.i. local clustering** with renumbered node weights -/
+theorem net_nsi_relabel (h : IsPerm n idx) (directed : Bool) (a : Adj) (w : Nat → Rat) (i : Nat)
+    (hi : i < n) :
+    nsiOutdeg n (mat a idx) (vec w idx) i = nsiOutdeg n a w (idx i) ∧
+    nsiIndeg n (mat a idx) (vec w idx) i = nsiIndeg n a w (idx i) ∧
+    nsiDegree directed n (mat a idx) (vec w idx) i = nsiDegree directed n a w (idx i) ∧
+    nsiLocalClustering n (mat a idx) (vec w idx) i = nsiLocalClustering n a w (idx i) := by
+  refine ⟨nsiOutdeg_relabel h a w i hi, nsiIndeg_relabel h a w i hi, ?_,
+    nsiLocalClustering_relabel h a w i hi⟩
+  simp only [nsiDegree, nsiOutdeg_relabel h a w i hi, nsiIndeg_relabel h a w i hi]
+
+/-- **BFS** (`path_lengths()`): the frontier search on the renumbered network, which visits the
+nodes in a different order, returns `D[idx a, idx b]` (`none` = unreachable) -/
+theorem net_dist_relabel (h : IsPerm n idx) (a : Adj) (i j : Nat) (hi : i < n) (hj : j < n) :
+    dist n (mat a idx) i j = dist n a (idx i) (idx j) := dist_relabel h a i j hi hj
+
+/-- **path-based measures** of the BFS distances of the renumbered network: global efficiency,
+average path length (igraph's convention), diameter are unchanged; closeness and n.s.i.
+closeness are permuted -/
+theorem net_path_measures_relabel (h : IsPerm n idx) (a : Adj) (w : Nat → Rat) :
+    Net.globalEfficiency n (dist n (mat a idx)) = Net.globalEfficiency n (dist n a) ∧
+    efficiencyDef n (dist n (mat a idx)) = efficiencyDef n (dist n a) ∧
+    avgPathLengthU n (dist n (mat a idx)) = avgPathLengthU n (dist n a) ∧
+    diameter n (dist n (mat a idx)) = diameter n (dist n a) ∧
+    (∀ i, i < n → closeness n (dist n (mat a idx)) i = closeness n (dist n a) (idx i)) ∧
+    (∀ i, i < n → nsiCloseness n (dist n (mat a idx)) (vec w idx) i
+        = nsiCloseness n (dist n a) w (idx i)) :=
+  have hd := dist_renumbered h a
+  ⟨globalEfficiency_relabel h _ _ hd, efficiencyDef_relabel h _ _ hd,
+   avgPathLengthU_relabel h _ _ hd, diameter_relabel h _ _ hd,
+   fun i hi => closeness_relabel h _ _ hd i hi, fun i hi => nsiCloseness_relabel h _ _ hd w i hi⟩
+
+/-- the same for **link-weighted path lengths**: any pairwise distance matrix `d'` of the
+renumbered network that is the old one read at the old numbers (`Renumbered`) -/
+theorem net_weighted_path_measures_relabel (h : IsPerm n idx) (d d' : Nat → Nat → Option Rat)
+    (hd : Renumbered n idx d d') :
+    avgPathLength n d' = avgPathLength n d ∧
+    ∀ i, i < n → closenessW n d' i = closenessW n d (idx i) :=
+  ⟨avgPathLength_relabel h d d' hd, fun i hi => closenessW_relabel h d d' hd i hi⟩
+
+/-- **coreness**: the peeling loops (`peel`, `coreLoop`: remove nodes of alive-degree `< k` until
+stable, for `k = 1, 2, …`) run on the renumbered network return the renumbered coreness array -/
+theorem net_coreness_relabel (h : IsPerm n idx) (a : Adj) (directed : Bool) :
+    coreness n (mat a idx) directed = nodeList n idx 0 (coreness n a directed) :=
+  coreness_relabel h a directed
+
+/-- entry form of `net_coreness_relabel` -/
+theorem net_coreness_entry (h : IsPerm n idx) (a : Adj) (directed : Bool) (v : Nat) (hv : v < n) :
+    (coreness n (mat a idx) directed).getD v 0 = (coreness n a directed).getD (idx v) 0 := by
+  rw [coreness_relabel h a directed, nodeList_getD n idx 0 _ v hv]
+
+/-! ## C11 model: cross / internal measures, node lists renumbered with the network -/
+open Pyunicorn.Cross
+
+/-- `idx (inv k) = k`: the renumbered node lists name the same nodes -/
+theorem nodes_spec (h : IsPerm n idx) (L : List Nat) (hL : ∀ k ∈ L, k < n) :
+    (nodes n idx L).map idx = L ∧ ∀ k ∈ nodes n idx L, k < n :=
+  ⟨nodes_map_idx h L hL, nodes_lt h L hL⟩
+
+/-- **cross / internal degree and link measures**: `cross_degree`, `cross_indegree`,
+`cross_outdegree`, strengths, `number_cross_links`, `cross_link_density`, `internal_adjacency`,
+`number_internal_links`, `internal_link_density`, `cross_degree_density`, `total_cross_degree` of
+the renumbered network with the renumbered lists equal the old results (results are indexed by
+list position, which is kept). -/
+theorem cross_links_relabel (h : IsPerm n idx) (directed : Bool) (A : Cross.Adj)
+    (W : Nat → Nat → Rat) (L1 L2 : List Nat) (h1 : ∀ k ∈ L1, k < n) (h2 : ∀ k ∈ L2, k < n) :
+    let P1 := nodes n idx L1; let P2 := nodes n idx L2
+    crossDegree directed (mat A idx) P1 P2 = crossDegree directed A L1 L2 ∧
+    crossOutDegree (mat A idx) P1 P2 = crossOutDegree A L1 L2 ∧
+    crossInDegree (mat A idx) P1 P2 = crossInDegree A L1 L2 ∧
+    crossStrength directed (mat W idx) P1 P2 = crossStrength directed W L1 L2 ∧
+    numberCrossLinks (mat A idx) P1 P2 = numberCrossLinks A L1 L2 ∧
+    crossLinkDensity (mat A idx) P1 P2 = crossLinkDensity A L1 L2 ∧
+    internalAdjacency (mat A idx) P1 = internalAdjacency A L1 ∧
+    numberInternalLinks directed (mat A idx) P1 = numberInternalLinks directed A L1 ∧
+    internalLinkDensity directed (mat A idx) P1 = internalLinkDensity directed A L1 ∧
+    crossDegreeDensity directed (mat A idx) P1 P2 = crossDegreeDensity directed A L1 L2 ∧
+    totalCrossDegree directed (mat A idx) P1 P2 = totalCrossDegree directed A L1 L2 := by
+  intro P1 P2
+  have e1 : P1.map idx = L1 := nodes_map_idx h L1 h1
+  have e2 : P2.map idx = L2 := nodes_map_idx h L2 h2
+  simp only [crossDegree_nat, crossOutDegree_nat, crossInDegree_nat, crossStrength_nat,
+    numberCrossLinks_nat, crossLinkDensity_nat, internalAdjacency_nat, numberInternalLinks_nat,
+    internalLinkDensity_nat, crossDegreeDensity_nat, totalCrossDegree_nat, e1, e2, and_self]
+
+/-- **the compiled kernels** `_cross_transitivity`, `_cross_local_clustering` (loops
+`for j in range(n): for k in range(j)` over the node lists) and the methods around them -/
+theorem cross_clustering_relabel (h : IsPerm n idx) (directed : Bool) (A : Cross.Adj)
+    (L1 L2 : List Nat) (h1 : ∀ k ∈ L1, k < n) (h2 : ∀ k ∈ L2, k < n) :
+    let P1 := nodes n idx L1; let P2 := nodes n idx L2
+    ctCounts (mat A idx) P1 P2 = ctCounts A L1 L2 ∧
+    crossTransitivity (mat A idx) P1 P2 = crossTransitivity A L1 L2 ∧
+    crossLocalClustering directed (mat A idx) P1 P2 = crossLocalClustering directed A L1 L2 ∧
+    crossGlobalClustering directed (mat A idx) P1 P2 = crossGlobalClustering directed A L1 L2 ∧
+    internalGlobalClustering n (mat A idx) P1 = internalGlobalClustering n A L1 := by
+  intro P1 P2
+  have e1 : P1.map idx = L1 := nodes_map_idx h L1 h1
+  have e2 : P2.map idx = L2 := nodes_map_idx h L2 h2
+  refine ⟨?_, ?_, ?_, ?_, internalGlobalClustering_relabel h A L1 h1⟩ <;>
+  simp only [ctCounts_nat, crossTransitivity_nat, crossLocalClustering_nat,
+    crossGlobalClustering_nat, e1, e2]
+
+/-- **path-length based cross / internal measures** of a distance matrix carried with the nodes
+(`cross_average_path_length`, `internal_average_path_length`, `cross_closeness`,
+`internal_closeness`, `average_cross_closeness`, `local_efficiency`, `global_efficiency`) -/
+theorem cross_paths_relabel (h : IsPerm n idx) (N : Nat) (D : Cross.Dist) (L1 L2 : List Nat)
+    (h1 : ∀ k ∈ L1, k < n) (h2 : ∀ k ∈ L2, k < n) :
+    let P1 := nodes n idx L1; let P2 := nodes n idx L2
+    crossAPL (mat D idx) P1 P2 = crossAPL D L1 L2 ∧
+    internalAPL (mat D idx) P1 = internalAPL D L1 ∧
+    crossCloseness N (mat D idx) P1 P2 = crossCloseness N D L1 L2 ∧
+    internalCloseness (mat D idx) P1 = internalCloseness D L1 ∧
+    averageCrossCloseness N (mat D idx) P1 P2 = averageCrossCloseness N D L1 L2 ∧
+    localEfficiency (mat D idx) P1 P2 = localEfficiency D L1 L2 ∧
+    Cross.globalEfficiency (mat D idx) P1 P2 = Cross.globalEfficiency D L1 L2 := by
+  intro P1 P2
+  have e1 : P1.map idx = L1 := nodes_map_idx h L1 h1
+  have e2 : P2.map idx = L2 := nodes_map_idx h L2 h2
+  simp only [crossAPL_nat, internalAPL_nat, crossCloseness_nat, internalCloseness_nat,
+    averageCrossCloseness_nat, localEfficiency_nat, globalEfficiency_x_nat, e1, e2, and_self]
+
+/-- **n.s.i. cross measures** (kernels `_nsi_cross_transitivity`, `_nsi_cross_local_clustering`
+included) with renumbered node weights.  `A⁺ = A + 1` compares node numbers, so the renumbering
+is taken as a bijection of all numbers that permutes `0..n-1` (e.g. the identity beyond `n`, as
+the driver's `fun a => perm.getD a a`). -/
+theorem cross_nsi_relabel (h : IsPerm n idx) (hinj : Function.Injective idx) (N : Nat)
+    (A : Cross.Adj) (D : Cross.Dist) (w : Nat → Rat) (L1 L2 : List Nat)
+    (h1 : ∀ k ∈ L1, k < n) (h2 : ∀ k ∈ L2, k < n) :
+    let P1 := nodes n idx L1; let P2 := nodes n idx L2
+    nsiCrossDegree (mat A idx) (vec w idx) P1 P2 = nsiCrossDegree A w L1 L2 ∧
+    nsiCrossMeanDegree (mat A idx) (vec w idx) P1 P2 = nsiCrossMeanDegree A w L1 L2 ∧
+    nsiCrossEdgeDensity (mat A idx) (vec w idx) P1 P2 = nsiCrossEdgeDensity A w L1 L2 ∧
+    nsiCrossLocalClustering (mat A idx) (vec w idx) P1 P2 = nsiCrossLocalClustering A w L1 L2 ∧
+    nsiCrossGlobalClustering (mat A idx) (vec w idx) P1 P2 = nsiCrossGlobalClustering A w L1 L2 ∧
+    nsiCrossTransitivity (mat A idx) (vec w idx) P1 P2 = nsiCrossTransitivity A w L1 L2 ∧
+    nsiCrossCloseness N (mat D idx) (vec w idx) P1 P2 = nsiCrossCloseness N D w L1 L2 ∧
+    nsiCrossAPL N (mat D idx) (vec w idx) P1 P2 = nsiCrossAPL N D w L1 L2 := by
+  intro P1 P2
+  have e1 : P1.map idx = L1 := nodes_map_idx h L1 h1
+  have e2 : P2.map idx = L2 := nodes_map_idx h L2 h2
+  simp only [nsiCrossDegree_nat hinj, nsiCrossMeanDegree_nat hinj, nsiCrossEdgeDensity_nat hinj,
+    nsiCrossLocalClustering_nat hinj, nsiCrossGlobalClustering_nat hinj,
+    nsiCrossTransitivity_nat hinj, nsiCrossCloseness_nat hinj, nsiCrossAPL_nat hinj, e1, e2,
+    and_self]
+
+/-! ## C18 model: resistive networks -/
+open Pyunicorn.Circuit
+
+/-- **admittance matrix and Laplacian** of the renumbered resistances -/
+theorem res_laplacian_relabel (h : IsPerm n idx) (adj : Circuit.Adj) (res : Mat) (i j : Nat)
+    (hi : i < n) (hj : j < n) :
+    admittance (mat adj idx) (mat res idx) i j = admittance adj res (idx i) (idx j) ∧
+    Circuit.laplacian n (admittance (mat adj idx) (mat res idx)) i j
+      = Circuit.laplacian n (admittance adj res) (idx i) (idx j) :=
+  ⟨rfl, laplacian_c_relabel h (admittance adj res) i j hi hj⟩
+
+/-- **what `update_R` needs**: the renumbered inverse is a generalised inverse (and satisfies the
+first and third Moore–Penrose equations, and `L R = I − J/n`) of the renumbered Laplacian, and the
+renumbered network is again a connected resistor network -/
+theorem res_inverse_relabel (h : IsPerm n idx) (adj : Circuit.Adj) (res R : Mat) :
+    (IsGinv n (Circuit.laplacian n (admittance adj res)) R →
+      IsGinv n (Circuit.laplacian n (admittance (mat adj idx) (mat res idx))) (mat R idx)) ∧
+    (IsPinv13 n (Circuit.laplacian n (admittance adj res)) R →
+      IsPinv13 n (Circuit.laplacian n (admittance (mat adj idx) (mat res idx))) (mat R idx)) ∧
+    (IsProj n (Circuit.laplacian n (admittance adj res)) R →
+      IsProj n (Circuit.laplacian n (admittance (mat adj idx) (mat res idx))) (mat R idx)) ∧
+    (IsNetwork n adj res → IsNetwork n (mat adj idx) (mat res idx)) ∧
+    (CutConnected n (admittance adj res) →
+      CutConnected n (admittance (mat adj idx) (mat res idx))) :=
+  ⟨isGinv_relabel h _ R, isPinv13_relabel h _ R, isProj_relabel h _ R, isNetwork_relabel h,
+   cutConnected_relabel h⟩
+
+/-- **effective resistance is equivariant** on every connected resistor network, for whatever
+generalised inverses (`L R L = L` — all the theorems of C18 use of `np.linalg.pinv`) were stored
+for the two numberings: `R'_eff(a, b) = R_eff(idx a, idx b)`.  This closes round 2's "that the
+pseudo-inverse itself is equivariant is not proved". -/
+theorem res_effRes_relabel (h : IsPerm n idx) (adj : Circuit.Adj) (res R R' : Mat) (a b : Nat)
+    (ha : a < n) (hb : b < n) (hN : IsNetwork n adj res)
+    (hconn : CutConnected n (admittance adj res))
+    (hg : IsGinv n (Circuit.laplacian n (admittance adj res)) R)
+    (hg' : IsGinv n (Circuit.laplacian n (admittance (mat adj idx) (mat res idx))) R') :
+    effRes R' a b = effRes R (idx a) (idx b) :=
+  effRes_relabel h adj res R R' a b ha hb hN hconn hg hg'
+
+/-- hence **closeness centrality and the average** of the effective resistances -/
+theorem res_measures_relabel (h : IsPerm n idx) (adj : Circuit.Adj) (res R R' : Mat)
+    (hN : IsNetwork n adj res) (hconn : CutConnected n (admittance adj res))
+    (hg : IsGinv n (Circuit.laplacian n (admittance adj res)) R)
+    (hg' : IsGinv n (Circuit.laplacian n (admittance (mat adj idx) (mat res idx))) R') :
+    (∀ a, a < n → ercc n R' a = ercc n R (idx a)) ∧
+    averageOf n (allPairs n R') = averageOf n (allPairs n R) := by
+  have he : ∀ a b, a < n → b < n → effRes R' a b = effRes R (idx a) (idx b) :=
+    fun a b ha hb => effRes_relabel h adj res R R' a b ha hb hN hconn hg hg'
+  exact ⟨fun a ha => ercc_relabel h R R' a fun i hi => he a i ha hi, average_relabel h R R' he⟩
+
+/-- **admittive degree, neighbours' admittive degree, local / global admittive clustering**
+(the Python triple loop) -/
+theorem res_admittive_relabel (h : IsPerm n idx) (adj : Circuit.Adj) (adm : Mat) (i : Nat) :
+    admDegree n (mat adm idx) i = admDegree n adm (idx i) ∧
+    anad n (mat adj idx) (mat adm idx) i = anad n adj adm (idx i) ∧
+    Circuit.localClustering n (mat adj idx) (mat adm idx) i
+      = Circuit.localClustering n adj adm (idx i) ∧
+    Circuit.globalClustering n (mat adj idx) (mat adm idx) = Circuit.globalClustering n adj adm :=
+  ⟨admDegree_relabel h adm i, anad_relabel h adj adm i, localClustering_c_relabel h adj adm i,
+   globalClustering_c_relabel h adj adm⟩
+
+/-- **current-flow betweenness kernels** (`_vertex_current_flow_betweenness_fast`,
+`_edge_current_flow_betweenness_fast`: `for t in range(N): for s in range(t)` with the `continue`
+for `i ∈ {s, t}`, unit currents): for an inverse `R'` of the renumbered network that is the
+renumbered old one on the nodes (`res_inverse_relabel`: it satisfies the same defining equations)
+the vertex values are permuted and the edge values permuted on both axes.  *Partial* in that the
+uniqueness of the Moore–Penrose inverse (so that `update_R` must have stored this `R'`) is not
+proved here; the effective resistances (`res_effRes_relabel`) need no such hypothesis. -/
+theorem res_currentflow_relabel (h : IsPerm n idx) (adm R R' : Mat)
+    (hR : ∀ a b, a < n → b < n → R' a b = R (idx a) (idx b)) (i j : Nat) (hi : i < n) (hj : j < n) :
+    vcfbKernel n 1 1 (mat adm idx) R' i = vcfbKernel n 1 1 adm R (idx i) ∧
+    ecfbKernel n 1 1 (mat adm idx) R' i j = ecfbKernel n 1 1 adm R (idx i) (idx j) :=
+  ⟨vcfb_relabel h adm R R' hR i hi, ecfb_relabel h adm R R' hR i j hi hj⟩
+
+/-! ## C12 model over `Rat`: grids and link-distance measures -/
+open Pyunicorn.Geo
+
+/-- **grid distances**: the triangular-fill kernels run on the renumbered coordinate sequences
+give `D[idx a, idx b]` (Euclidean: `x[:, idx]`; angular: `lat[idx]`, `lon[idx]`), for every
+`sqrt` / trigonometric operations -/
+theorem geo_distance_relabel (h : IsPerm n idx) (T : Trig Rat) (x : Nat → Nat → Rat)
+    (lat lon : Nat → Rat) (d a b : Nat) (ha : a < n) (hb : b < n) :
+    euclideanDistance T (cols x idx) d n a b = euclideanDistance T x d n (idx a) (idx b) ∧
+    angularDistance T (vec lat idx) (vec lon idx) n a b
+      = angularDistance T lat lon n (idx a) (idx b) :=
+  ⟨euclideanDistance_relabel h T x d a b ha hb, angularDistance_relabel h T lat lon a b ha hb⟩
+
+/-- **area-weighted connectivity and node weights** of `GeoNetwork` -/
+theorem geo_awc_relabel (h : IsPerm n idx) (T : Trig Rat) (directed : Bool) (t : WType)
+    (lat : Nat → Rat) (A : Nat → Nat → Rat) (i : Nat) :
+    nodeWeights T t (vec lat idx) i = nodeWeights T t lat (idx i) ∧
+    inAWC T (vec lat idx) (mat A idx) n i = inAWC T lat A n (idx i) ∧
+    outAWC T (vec lat idx) (mat A idx) n i = outAWC T lat A n (idx i) ∧
+    AWC T directed (vec lat idx) (mat A idx) n i = AWC T directed lat A n (idx i) :=
+  ⟨nodeWeights_relabel T t lat i, AWC_relabel h T directed lat A i⟩
+
+/-- **link-distance measures** of `SpatialNetwork` with the distance matrix renumbered with the
+nodes: `(in|out)average_link_distance`, `average_link_distance` (with and without geometry
+correction), `max_link_distance` -/
+theorem geo_link_distance_relabel (h : IsPerm n idx) (directed : Bool) (D A : Nat → Nat → Rat)
+    (nN : Rat) (corrected : Bool) (i : Nat) :
+    outALD (mat D idx) (mat A idx) n nN corrected i = outALD D A n nN corrected (idx i) ∧
+    inALD (mat D idx) (mat A idx) n nN corrected i = inALD D A n nN corrected (idx i) ∧
+    avgALD directed (mat D idx) (mat A idx) n nN corrected i
+      = avgALD directed D A n nN corrected (idx i) ∧
+    maxLinkDist (mat D idx) (mat A idx) n i = maxLinkDist D A n (idx i) ∧
+    maxLinkDistNet (mat D idx) (mat A idx) n i = maxLinkDistNet D A n (idx i) :=
+  have a := ALD_relabel h directed D A nN corrected i
+  have b := maxLinkDist_relabel h D A i
+  ⟨a.1, a.2.1, a.2.2, b.1, b.2⟩
+
+/-! ## C07 model: recurrence networks of reordered state vectors -/
+open Pyunicorn.Recurrence
+
+/-- **recurrence matrix and recurrence-network adjacency** (`set_fixed_threshold`, all three
+metrics, NaN semantics and the missing-value mask included): reordering the state vectors
+renumbers the matrix, `R'[a, b] = R[idx a, idx b]`, and likewise the adjacency matrix with its
+zeroed diagonal (`A.flat[::N+1] = 0`) -/
+theorem rec_fixedThreshold_relabel (h : IsPerm n idx) (m : Metric) (emb : List (List V))
+    (hn : emb.length = n) (eps : Rat) (mv : Bool) (a b : Nat) (ha : a < n) (hb : b < n) :
+    entry (distRP m (rows n idx emb)) a b = entry (distRP m emb) (idx a) (idx b) ∧
+    entry (fixedThreshold m (rows n idx emb) eps mv) a b
+      = entry (fixedThreshold m emb eps mv) (idx a) (idx b) ∧
+    entry (zeroStride (fixedThreshold m (rows n idx emb) eps mv) (n + 1)) a b
+      = entry (zeroStride (fixedThreshold m emb eps mv) (n + 1)) (idx a) (idx b) :=
+  ⟨distRP_relabel h m emb hn a b ha hb, fixedThreshold_relabel h m emb hn eps mv a b ha hb,
+   recurrenceAdjacency_relabel h m emb hn eps mv a b ha hb⟩
+
+/-! ### non-vacuity -/
+
+def exPerm : Nat → Nat := fun a => [2, 0, 3, 1].getD a a
+/-- path 0 — 1 — 2 plus the isolated node 3 -/
+def exAdj : Net.Adj := fun i j => (i, j) ∈ [(0, 1), (1, 0), (1, 2), (2, 1)]
+
+example : IsPerm 4 exPerm := by unfold IsPerm; decide
+example : Function.Injective exPerm := by
+  intro a b e
+  unfold exPerm at e
+  rcases Nat.lt_or_ge a 4 with ha | ha <;> rcases Nat.lt_or_ge b 4 with hb | hb
+  · interval_cases a <;> interval_cases b <;> simp_all
+  · interval_cases a <;> simp_all [List.getD_eq_getElem?_getD] <;> omega
+  · interval_cases b <;> simp_all [List.getD_eq_getElem?_getD]
+  · simp_all [List.getD_eq_getElem?_getD]
+example : coreness 4 exAdj false = [1, 1, 1, 0] ∧
+    coreness 4 (mat exAdj exPerm) false = [1, 1, 0, 1] ∧
+    dist 4 (mat exAdj exPerm) 0 3 = some 1 ∧ dist 4 exAdj 2 1 = some 1 ∧
+    dist 4 (mat exAdj exPerm) 0 2 = none := by decide +kernel
+example : nodes 4 exPerm [0, 3] = [1, 2] ∧ (nodes 4 exPerm [0, 3]).map exPerm = [0, 3] := by
+  decide +kernel
+example : IsNetwork 3 (fun i j => i != j) (fun _ _ => 1) :=
+  ⟨fun i j _ _ => by simp [bne_comm], fun _ _ _ _ => rfl, fun _ _ _ _ _ => by norm_num⟩
+
+end Pyunicorn.Relabel
+
